@@ -43,6 +43,8 @@ let event_of (s : string) : event =
   let s = match String.index_opt s '#' with Some i -> String.sub s 0 i | None -> s in
   let a = split ',' (rest s 1) in
   match s.[0], a with
+  | 'C', ["~"] -> MNullCall
+  | 'R', ["~"] -> MNullReturn
   | 'B', [q] -> MBootstrap (zi q)
   | 'C', [q; tg; p; tc; mok; tag] ->
     MCall (zi q, target_of tg, (if p = "!" then None else Some (payload_of p)), b tc, b mok, zi tag)
@@ -102,8 +104,8 @@ let show_outputs (o : output list) : string =
   ^ String.concat "+" (List.sort compare !apps)
 
 let cfg_of (f : string) : cfg =
-  let g i = f.[i] = '1' in
-  { fx14 = g 0; fx15 = g 1; fx16 = g 2; fx17 = g 3; fx19 = g 4; fx20 = g 5; fx21 = g 6; fx22 = g 7 }
+  let g i = i >= String.length f || f.[i] = '1' in
+  { fx14 = g 0; fx15 = g 1; fx16 = g 2; fx17 = g 3; fx19 = g 4; fx20 = g 5; fx21 = g 6; fx22 = g 7; fx23 = g 8; fx24 = g 9; fx25 = g 10 }
 
 let nsrv = 3
 
